@@ -68,6 +68,17 @@ def generate(seed, tier):
         cases.append({'kind': 'sizing', 'logical': rng.choice([1, 2, 4]), 'avail': avail, 'mb': None, 'mult8': 8,
                       'cores': 1, 'n': rng.randint(1, 4), 'm': 1, 'dtype': 'f4',
                       'avail2': avail + rng.choice([4, 2 ** 30, 2 ** 34]), 'mb2': None})
+    # resumed runs whose completed set has holes (what an interrupted multi-rank job leaves): the rows actually READ
+    # from the source per batch are observed, not only the batch bookkeeping
+    for j in range({'quick': 8, 'thorough': 48, 'search': 24}[tier]):
+        rng = derived_rng(seed, 'C15holes', j)
+        n = rng.randint(6, 14)
+        done = sorted(rng.sample(range(n), rng.randint(1, n - 2)))
+        if rng.random() < 0.5:      # a block of finished positions in the middle
+            a = rng.randint(1, n - 3)
+            done = list(range(a, rng.randint(a + 1, n - 1)))
+        cases.append({'kind': 'run', 'logical': rng.choice([1, 2, 4, 8]), 'n': n, 'm': rng.randint(1, 4),
+                      'rows': rng.choice([1, 2, 2, 3, n]), 'cores': rng.choice([None, 1, 2]), 'done': done})
     # multipliers of either sign and of absolute value below 1 (refused), limits of either sign: the generated
     # `__set_memory` takes the absolute values itself
     for j in range({'quick': 6, 'thorough': 40, 'search': 16}[tier]):
@@ -118,13 +129,17 @@ def _alarm(signum, frame):
     raise Timeout()
 
 
-def _mkfile(work, n, m, dtype='f8'):
+def _mkfile(work, n, m, dtype='f8', done=None):
     ds = {'pos': {'sizes': [n], 'rate': [0], 'labels': ['PX'], 'units': ['a'], 'values': [list(range(n))]},
           'spec': {'sizes': [m], 'rate': [0], 'labels': ['SX'], 'units': ['b'], 'values': [list(range(m))]},
           'dtype': dtype}
     path = os.path.join(work, 'f.h5')
     with h5py.File(path, 'w') as f:
-        gen.write_usid(f.create_group('G'), ds)
+        g = f.create_group('G')
+        hm = gen.write_usid(g, ds)
+        if done:
+            procs.make_prior_group(g, 'main', 'RowProc', {'a': 1}, n, mask=[1 if i in done else 0 for i in range(n)],
+                                   results=[-100.0 - i if i in done else -1.0 for i in range(n)], source=hm)
     return path
 
 
@@ -156,7 +171,7 @@ def run_impl(inp, work):
         return {'a': a, 'b': b}
     # run: real compute() with a budget admitting exactly `rows` rows per worker
     n, m, rows = inp['n'], inp['m'], inp['rows']
-    path = _mkfile(work, n, m)
+    path = _mkfile(work, n, m, done=inp.get('done'))
     RowProc = procs.make_proc_class()
     log = os.path.join(work, 'log.txt')
     os.environ[procs.LOG_ENV] = log
@@ -177,6 +192,18 @@ def run_impl(inp, work):
             # (repeating: an alarm that goes off inside a callback whose exceptions are swallowed - a weak-reference
             #  finaliser, __del__ - must come again)
             signal.setitimer(signal.ITIMER_REAL, 20, 2)
+            rows_read = []
+            orig_getitem = h5py.Dataset.__getitem__
+
+            def traced(self_, key, *a, **k):
+                r = orig_getitem(self_, key, *a, **k)
+                try:
+                    if self_.name == '/G/main' and getattr(r, 'ndim', 0) == 2:
+                        rows_read.append(int(r.shape[0]))
+                except Exception:      # noqa
+                    pass
+                return r
+            h5py.Dataset.__getitem__ = traced
             try:
                 with quiet():
                     grp = p2.compute()
@@ -189,6 +216,7 @@ def run_impl(inp, work):
                 out['err'] = err_of(e)
                 grp = p2.h5_results_grp
             finally:
+                h5py.Dataset.__getitem__ = orig_getitem
                 signal.setitimer(signal.ITIMER_REAL, 0)
                 signal.signal(signal.SIGALRM, old)
             if grp is not None and 'completed_positions' in grp:
@@ -196,6 +224,7 @@ def run_impl(inp, work):
             else:
                 out['status'] = None
             out['batches'] = p2.batches
+            out['rows_read'] = rows_read
     return out
 
 
@@ -260,6 +289,13 @@ def oracle(inp, obs):
                          % (obs['result'], obs['status']))
         if any(len(b) > obs['maxpos'] for b in obs['batches']):
             fails.append('batch-limit: a batch exceeds the computed limit %d' % obs['maxpos'])
+        if any(r > obs['maxpos'] for r in obs.get('rows_read', [])):
+            fails.append('read-limit: one read of the source fetched %d rows, beyond the %d rows per batch the budget admits'
+                         % (max(obs['rows_read']), obs['maxpos']))
+        done = set(inp.get('done') or [])
+        if done and sorted(p for b in obs['batches'] for p in b) != [i for i in range(inp['n']) if i not in done]:
+            fails.append('resume-batches: the batches %s are not exactly the pending positions (done before: %s)'
+                         % (obs['batches'], sorted(done)))
     else:
         if obs['result'] != 'err':
             fails.append('zero-budget: budget admits no row but compute() ended %s' % obs['result'])
@@ -298,7 +334,7 @@ def model_requests(inp):
     # run: the available memory was derived from the worker count, itself a function of (logical, cores):
     # ask the model for every possible worker count and let model_obs pick the consistent one
     return [{'op': 'gen.run', 'logical': inp['logical'], 'cores': inp['cores'], 'avail': _run_avail(inp, w),
-             'mb': None, 'rowbytes': 8 * inp['m'], 'num': 8, 'den': 8, 'n': inp['n']}
+             'mb': None, 'rowbytes': 8 * inp['m'], 'num': 8, 'den': 8, 'n': inp['n'] - len(inp.get('done') or [])}
             for w in range(1, inp['logical'] + 1)]
 
 
@@ -311,7 +347,9 @@ def model_obs(inp, resp):
     r = r[0] if r else resp[0]
     loop = r.get('loop', {})
     if 'ok' in loop:
-        return {'maxpos': r['maxpos'], 'workers': r['cores'], 'result': 'ok', 'batches': [list(range(a, b)) for a, b in loop['ok']]}
+        pend = [i for i in range(inp['n']) if i not in set(inp.get('done') or [])]     # the loop runs over the pending list
+        return {'maxpos': r['maxpos'], 'workers': r['cores'], 'result': 'ok',
+                'batches': [[pend[i] for i in range(a, b)] for a, b in loop['ok']]}
     return {'maxpos': r.get('maxpos'), 'workers': r.get('cores'), 'result': 'err', 'err': loop.get('err'), 'batches': []}
 
 
